@@ -105,7 +105,34 @@ Proof. intros H. apply digits_of_some in H. destruct H as [_ <-]. symmetry. appl
    '1's, again because 58 < 256 — i.e. one zero byte per leading '1' followed by
    the minimal big-endian bytes of the number. *)
 
+(* canonical big-endian digits in base 2^w, with shifts (= be_digits (2^w)) *)
+Fixpoint be_digits2_go (w : N) (fuel : nat) (n : N) (acc : list N) : list N :=
+  match fuel with
+  | O => acc
+  | S f => if n =? 0 then acc else be_digits2_go w f (N.shiftr n w) (N.land n (N.ones w) :: acc)
+  end.
+Definition be_digits2 (w : N) (n : N) : list N := be_digits2_go w (N.to_nat (N.size n)) n [].
+
+Lemma be_digits2_eq w n : be_digits2 w n = be_digits (2 ^ w) n.
+Proof.
+  unfold be_digits2, be_digits. generalize (N.to_nat (N.size n)) as fuel. generalize (@nil N) as acc.
+  intros acc fuel. revert n acc. induction fuel as [|f IH]; intros n acc; [reflexivity|].
+  cbn [be_digits2_go be_digits_go]. destruct (n =? 0); [reflexivity|].
+  rewrite N.shiftr_div_pow2, N.land_ones. unfold N.div, N.modulo.
+  destruct (N.div_eucl n (2 ^ w)) as [q r]. cbn [fst snd]. apply IH.
+Qed.
+
 Definition b58dec_with (tbl : bstr) (s : bstr) : option bstr :=
+  match s with
+  | [] => None
+  | _ :: _ =>
+    match digits_of tbl s with
+    | None => None
+    | Some ds => Some (repeat 0 (lead0 ds) ++ be_digits2 8 (of_be 58 ds))
+    end
+  end.
+
+Lemma b58dec_with_spec tbl s : b58dec_with tbl s =
   match s with
   | [] => None
   | _ :: _ =>
@@ -114,6 +141,7 @@ Definition b58dec_with (tbl : bstr) (s : bstr) : option bstr :=
     | Some ds => Some (repeat 0 (lead0 ds) ++ be_digits 256 (of_be 58 ds))
     end
   end.
+Proof. unfold b58dec_with. destruct s; [reflexivity|]. destruct (digits_of tbl _); [|reflexivity]. rewrite be_digits2_eq. reflexivity. Qed.
 
 Definition b58dec : bstr -> option bstr := b58dec_with tbl_b58.
 
@@ -137,7 +165,7 @@ Proof. unfold b58enc. rewrite map_app, map_repeat. reflexivity. Qed.
 (* every decoded value is a byte string *)
 Theorem b58dec_bytes s b : b58dec s = Some b -> bytes_lt b.
 Proof.
-  unfold b58dec, b58dec_with. destruct s as [|c s]; [discriminate|].
+  unfold b58dec. rewrite b58dec_with_spec. destruct s as [|c s]; [discriminate|].
   destruct (digits_of tbl_b58 (c :: s)) as [ds|]; [|discriminate]. intros H. inversion H; subst b.
   apply Forall_app. split; [apply bytes_lt_repeat0 | apply be_digits_lt; lia].
 Qed.
@@ -157,7 +185,7 @@ Qed.
    string encodes to the empty string, which the Go decoder rejects.) *)
 Theorem b58_roundtrip b : bytes_lt b -> b <> [] -> b58dec (b58enc b) = Some b.
 Proof.
-  intros Hb Hne. unfold b58dec, b58dec_with.
+  intros Hb Hne. unfold b58dec. rewrite b58dec_with_spec.
   destruct (b58enc b) as [|c0 e0] eqn:Ee; [exfalso; revert Ee; apply b58enc_nonempty; exact Hne|].
   rewrite <- Ee. clear c0 e0 Ee.
   rewrite b58enc_as_map.
@@ -178,7 +206,7 @@ Qed.
 (* the converse: a string decodes only to the byte string whose encoding it is *)
 Theorem b58dec_enc s b : b58dec s = Some b -> b58enc b = s.
 Proof.
-  unfold b58dec, b58dec_with. destruct s as [|c s]; [discriminate|].
+  unfold b58dec. rewrite b58dec_with_spec. destruct s as [|c s]; [discriminate|].
   destruct (digits_of tbl_b58 (c :: s)) as [ds|] eqn:D; [|discriminate]. intros H. inversion H; subst b. clear H.
   apply digits_of_some in D. destruct D as [Dl Dm]. change (N.of_nat (length tbl_b58)) with 58 in Dl.
   rewrite <- Dm. rewrite b58enc_as_map. f_equal.
@@ -201,7 +229,7 @@ Proof.
   split.
   - intros [b H]. split; [intros ->; discriminate|].
     apply b58dec_enc in H. rewrite <- H. apply b58enc_chars.
-  - intros [Hne Hc]. unfold b58dec, b58dec_with. destruct s as [|c s]; [congruence|].
+  - intros [Hne Hc]. unfold b58dec. rewrite b58dec_with_spec. destruct s as [|c s]; [congruence|].
     assert (D : exists ds, digits_of tbl_b58 (c :: s) = Some ds).
     { clear Hne. induction Hc as [|x l Hx _ IH]; [exists []; reflexivity|].
       destruct IH as [ds IH]. cbn [digits_of]. rewrite IH.
@@ -607,7 +635,7 @@ Proof.
   { unfold b32raw_dec. destruct (digits_of _ _); [|discriminate]. intros H. inversion H. apply dec_digits_bytes. }
   destruct (c =? 122); [apply b58dec_bytes|].
   destruct (c =? 90).
-  { unfold b58dec_with. destruct r as [|c0 r0]; [discriminate|]. destruct (digits_of _ _); [|discriminate].
+  { rewrite b58dec_with_spec. destruct r as [|c0 r0]; [discriminate|]. destruct (digits_of _ _); [|discriminate].
     intros H. inversion H. apply Forall_app. split; [apply bytes_lt_repeat0 | apply be_digits_lt; lia]. }
   destruct (c =? 109); [apply b64raw_dec_bytes|].
   destruct (c =? 117); [apply b64raw_dec_bytes|].
